@@ -136,14 +136,14 @@ func init() {
 		ID: "C12", Level: "exploration", World: "fleet",
 		QuickRuns: 12000, ThoroughRuns: 1000000,
 		Generate: GenFleet(&fleetProfile{prop: "C12", stores: allKinds, roles: []string{"sketch"}, minNodes: 1, maxNodes: 4, shareMap: true,
-			weights: []string{"unit", "int"}, valueSigns: []string{"pos", "neg", "mixed", "zeros", "zeroneg"},
-			ops:   map[string]int{"add": 30, "addw": 15, "burst": 5, "merge": 10, "copy": 3, "clear": 4, "reweight": 2, "send": 8, "query": 10},
+			weights: []string{"unit", "int", "int", "frac", "tiny"}, valueSigns: []string{"pos", "neg", "mixed", "zeros", "zeroneg"},
+			ops:   map[string]int{"add": 30, "addw": 15, "burst": 5, "merge": 10, "copy": 3, "clear": 4, "reweight": 3, "send": 8, "query": 10},
 			forms: []string{"bin", "binomit", "pb", "pbstream"}, modes: []string{"merge", "fresh", "reuse"}, queryEvery: 10, maxOps: 120}),
 		Execute:    ExecFleet,
 		NonTrivial: nonTrivialFleet(3),
 		Rule:       "seeded pipeline simulations with the coherence invariants evaluated after every event on the node it touched; " + distinctRule + "; non-trivial = at least 3 mutations",
 		Real:       realFleetComponents, Stub: stubFleetComponents,
-		Assumptions: []string{"integer weights with total weight >= 1 (total weight below one is C11's case)", exactAssumption, sampleAssumption},
+		Assumptions: []string{"weight regimes: unit, integer, dyadic fractions and totals below one", exactAssumption, sampleAssumption},
 	})
 	engine.Register(&engine.Prop{
 		ID: "C13", Level: "exploration", World: "fleet",
@@ -547,7 +547,7 @@ func init() {
 			rule = "every Reweight (dyadic factors 2^-8..2^8 inside the exactness budget, applied to states reached by any history) is bracketed by snapshots: every bin on both sides, the zero weight and the count must be exactly the factor times their previous value, no bin may appear or disappear, exact sum scales, exact extremes stay"
 		}
 		gen, exec, nt := twoWorlds(GenFleet(&fleetProfile{prop: id, stores: allKinds, roles: []string{"sketch", "sketch", "exact"}, minNodes: 1, maxNodes: 3, shareMap: true,
-			weights: []string{"unit", "int", "frac"}, valueSigns: []string{"pos", "neg", "mixed", "zeros"}, moderate: id == "C14",
+			weights: []string{"unit", "int", "frac"}, valueSigns: []string{"pos", "neg", "mixed", "zeros"},
 			ops: ops, forms: []string{"bin", "binomit", "pb", "pbstream"}, modes: []string{"merge", "fresh", "reuse"}, queryEvery: map[string]int{"C14": 35, "C15": 0, "C16": 0}[id], maxOps: 120}), GenStoreWorld(id))
 		engine.Register(&engine.Prop{
 			ID: id, Level: "exploration", World: "fleet+store",
